@@ -44,6 +44,10 @@ class SimFault(Exception):
   pass
 
 
+class SimBaseFault(BaseException):
+  """KeyboardInterrupt-like: not an Exception."""
+
+
 class _TruthRaises:
 
   def __bool__(self):
@@ -97,7 +101,8 @@ def _gen_ops(rng, depth, budget, allow_spawn, nrefs):
     if r < 0.3 and depth < 5:
       budget[0] -= 1
       ops.append({'op': 'block', 'entry': _gen_entry(rng),
-                  'exit': 'raise' if rng.random() < 0.25 else 'normal',
+                  'exit': rng.choice(['raise', 'raise', 'raise_base'])
+                          if rng.random() < 0.25 else 'normal',
                   'body': _gen_ops(rng, depth + 1, budget, allow_spawn, nrefs)})
     elif r < 0.5:
       ops.append({'op': 'obs'})
@@ -435,9 +440,11 @@ def _execute(case, policy, replay, hint):
                 st['captured'] = list(got_scope)
               run_ops(op['body'], st, new)
               check_scope(st, new, 'block-end')
-              if op['exit'] == 'raise':
+              if op['exit'] in ('raise', 'raise_base'):
                 raise SimFault('body fault')
-        except SimFault as e:
+              if op['exit'] == 'raise_base':
+                raise SimBaseFault('body fault')
+        except (SimFault, SimBaseFault) as e:
           raised = e
         except ValueError as e:
           raised = e
@@ -459,7 +466,7 @@ def _execute(case, policy, replay, hint):
           check_scope(st, cur, 'after-invalid-entry',
                       str(op['entry'].get('val')))
         else:
-          if op['exit'] == 'raise':
+          if op['exit'] in ('raise', 'raise_base'):
             counters['exc_exit'] += 1
             if not isinstance(raised, SimFault):
               v('C09.restore', ['body-fault-lost'],
